@@ -220,10 +220,22 @@ Definition update_empty_head (d : durable) (c : chain) (self ext ts : N) (strict
         end
   end.
 
-(* a snapshot accepted into the live round of the chain (memory only) *)
+(* a snapshot added to the live round the way cosiHandleFinalization does it
+   (without the topology write): ValidateSnapshot on a StateCopy, then
+   AddSnapshot = validateSnapshot(add) on that copy (an error there is a panic)
+   and the copy is installed by assignNewGraphRound.  Memory only. *)
 Definition add_snapshot (c : chain) (s : snap) : chain * res unit :=
-  let '(l, r) := validate_snapshot sort_ts (c_number (ch_cache c)) (c_snaps (ch_cache c)) s true in
-  (set_snaps c l, r).
+  let number := c_number (ch_cache c) in
+  let '(l1, r1) := validate_snapshot sort_ts number (c_snaps (ch_cache c)) s false in
+  match r1 with
+  | Ok _ =>
+      let '(l2, r2) := validate_snapshot sort_ts number l1 s true in
+      match r2 with
+      | Ok _ => (set_snaps c l2, Ok tt)
+      | _ => (c, Panic)
+      end
+  | _ => (c, r1)
+  end.
 
 (* ---- histories over several chains ------------------------------------------------------ *)
 Inductive op :=
